@@ -354,7 +354,7 @@ MANIFEST = {
             "logit families x masks x temperature x top-k x top-p x clipping (thousands of rows per run, all checked "
             "against float64 statements of the distribution laws). Exploration: the input space is infinite; reach comes "
             "from structured corner families (ties, one feasible action, 1e4 magnitudes, nucleus inside the masked tail, "
-            "top_p down to 1e-8).",
+            "top_p down to 1e-8). Also: the same logits presented as transposed / strided / permuted views must give the same distribution; float64 logits not representable in float32 (laws checked in double precision).",
     "note": "Trusts torch softmax/tanh in float64 for the reference distribution; ties are judged on the library's own "
             "float32 scaled logits; shift invariance only with tanh_clipping=0 and exactly representable shifts.",
     "technique": "runtime monitoring: law-checking oracle (float64) on every call of the real decoding functions",
